@@ -770,6 +770,11 @@ func child(outf string) {
 			if ps, ok := st["parts"].([]any); ok {
 				for _, p0 := range ps {
 					p := p0.(map[string]any)
+					if raw, ok := p["raw"].(string); ok {
+						// a record a crash left unreadable (empty, cut off)
+						os.WriteFile(fmt.Sprintf("%s-partial-%d", name, hx.Int(p["N"])), []byte(hx.Unhex(raw)), 0o644)
+						continue
+					}
 					b, _ := json.Marshal(p)
 					os.WriteFile(fmt.Sprintf("%s-partial-%d", name, hx.Int(p["N"])), append(b, '\n'), 0o644)
 				}
